@@ -62,16 +62,23 @@ func DigestAppxTar(r io.Reader, hash crypto.Hash, doPageHash bool) (*AppxDigest,
 		return nil, err
 	}
 	// digest non-signature-related files
+	var layout zipslicer.Contiguous
 copyf:
 	for _, f := range inz.File {
 		switch f.Name {
 		case appxManifest, appxBlockMap, appxContentTypes, appxCodeIntegrity, appxSignature, bundleManifestFile:
 			info.patchStart = int64(f.Offset)
 			info.patchLen = inz.Size - info.patchStart
+			if err := layout.End(info.patchStart); err != nil {
+				return nil, err
+			}
 			break copyf
 		default:
 			info.mtime = f.ModTime()
 			if err := info.digestFile(f, doPageHash); err != nil {
+				return nil, err
+			}
+			if err := layout.Next(f); err != nil {
 				return nil, err
 			}
 			if _, err := info.outz.AddFile(f); err != nil {
